@@ -2,6 +2,7 @@ package main
 
 import (
 	"go/types"
+	"strings"
 )
 
 // Codec model: Marshal boxes the Go value ("the canonical encoding of v"), Unmarshal unboxes.
@@ -98,8 +99,10 @@ func (it *Interp) codecMethod(n *Native, name string, a []Val) Val {
 			return it.newErr(IfaceV{}, "unmarshal: "+msg)
 		}
 		if bz.Boxed == nil && isPlainB(bz) && len(bz.Bytes) == 0 {
-			// proto3: empty bytes decode to the zero message
-			*p = it.zero(elem)
+			// proto3: empty bytes are the encoding of the zero message (merged into the target: no field is present)
+			if strings.Contains(name, "JSON") {
+				*p = it.zero(elem)
+			}
 			if must {
 				return nil
 			}
@@ -109,14 +112,22 @@ func (it *Interp) codecMethod(n *Native, name string, a []Val) Val {
 			if typeKey(bz.BoxT) != typeKey(elem) {
 				return fail("type mismatch " + typeKey(bz.BoxT) + " vs " + typeKey(elem))
 			}
-			*p = copyDeep(bz.Boxed)
+			nv := copyDeep(bz.Boxed)
+			if !strings.Contains(name, "JSON") {
+				nv = it.protoMerge(*p, nv, elem)
+			}
+			*p = nv
 		} else {
 			t := it.toA(bz)
 			okT := App("decodes!"+typeKey(elem), SBool, t)
 			if !it.p.branch(okT) {
 				return fail("malformed bytes")
 			}
-			*p = it.freshValue(elem, "", it.decodeMaker(t, typeKey(elem)), freshOpts{maxLen: it.ex.cfg.DecodeMaxLen})
+			nv := it.freshValue(elem, "", it.decodeMaker(t, typeKey(elem)), freshOpts{maxLen: it.ex.cfg.DecodeMaxLen})
+			if !strings.Contains(name, "JSON") {
+				nv = it.protoMerge(*p, nv, elem)
+			}
+			*p = nv
 		}
 		if must {
 			return nil
@@ -154,5 +165,120 @@ func (it *Interp) codecMethod(n *Native, name string, a []Val) Val {
 		return IfaceV{V: &Native{Kind: "ifaceregistry"}}
 	}
 	it.fail("codec method %s unsupported", name)
+	return nil
+}
+
+// ---- proto merge semantics ----
+// The gogo-generated Unmarshal that ProtoCodec.Unmarshal calls does not reset its target: fields present on the wire
+// overwrite (proto3 omits zero values, so an absent scalar keeps the target's old value), repeated fields are appended,
+// embedded messages are merged recursively. Decoding into a zero target - the usual case - is plain replacement.
+
+func syntacticZero(v Val) bool {
+	switch x := v.(type) {
+	case nil:
+		return true
+	case *Term:
+		return x.IsConst() && x.val.Sign() == 0
+	case *StrV:
+		if x.Boxed != nil || x.T != nil {
+			return false
+		}
+		if x.IsArr {
+			for _, b := range x.Bytes {
+				if !b.IsConst() || b.val.Sign() != 0 {
+					return false
+				}
+			}
+			return true
+		}
+		return x.IsB && len(x.Bytes) == 0
+	case *StructV:
+		for _, f := range x.F {
+			if !syntacticZero(f) {
+				return false
+			}
+		}
+		return true
+	case *ArrayV:
+		for _, f := range x.E {
+			if !syntacticZero(f) {
+				return false
+			}
+		}
+		return true
+	case *SliceV:
+		return x.Len == 0
+	case Ptr:
+		return x == nil
+	case *MapV:
+		return x == nil || len(x.E) == 0
+	case IfaceV:
+		return x.IsNil()
+	case IntV:
+		return x.T.IsConst() && x.T.val.Sign() == 0
+	}
+	return false
+}
+
+func (it *Interp) protoMerge(old, nw Val, t types.Type) Val {
+	if syntacticZero(old) {
+		return nw
+	}
+	if syntacticZero(nw) {
+		return old
+	}
+	switch u := t.Underlying().(type) {
+	case *types.Basic:
+		switch n := nw.(type) {
+		case *Term:
+			o := old.(*Term)
+			var zero *Term
+			if n.sort == SBool {
+				zero = TFalse
+			} else {
+				zero = BVu(n.w, 0)
+			}
+			return Ite(Eq(n, zero), o, n)
+		case *StrV:
+			if it.p.branch(Eq(it.strLen(n), BVu(64, 0))) {
+				return old
+			}
+			return nw
+		}
+	case *types.Slice:
+		if isByteType(u.Elem()) {
+			n := nw.(*StrV)
+			if it.p.branch(Eq(it.strLen(n), BVu(64, 0))) {
+				return old
+			}
+			return nw
+		}
+		o, n := old.(*SliceV), nw.(*SliceV)
+		arr := make([]Val, 0, o.Len+n.Len)
+		for i := 0; i < o.Len; i++ {
+			arr = append(arr, copyVal((*o.Arr)[o.Off+i]))
+		}
+		for i := 0; i < n.Len; i++ {
+			arr = append(arr, copyVal((*n.Arr)[n.Off+i]))
+		}
+		return &SliceV{Arr: &arr, Len: len(arr), Cap: len(arr)}
+	case *types.Struct:
+		if ns := namedString(t); ns == "math/big.Int" || ns == "time.Time" || strings.HasPrefix(ns, "github.com/cosmos/cosmos-sdk/types.") {
+			return nw // custom types replace
+		}
+		o, n := old.(*StructV), nw.(*StructV)
+		r := &StructV{T: n.T, F: make([]Val, len(n.F))}
+		for i := range n.F {
+			r.F[i] = it.protoMerge(o.F[i], n.F[i], u.Field(i).Type())
+		}
+		return r
+	case *types.Pointer:
+		o, n := old.(Ptr), nw.(Ptr)
+		if _, isStruct := u.Elem().Underlying().(*types.Struct); isStruct && o != nil && n != nil {
+			m := it.protoMerge(*o, *n, u.Elem())
+			return Ptr(&m)
+		}
+	}
+	it.fail("proto merge into a non-zero %s is not modelled", t)
 	return nil
 }
